@@ -3,6 +3,7 @@ import hashlib
 import importlib
 import json
 import os
+import shutil
 import tempfile
 from pathlib import Path
 
@@ -124,7 +125,15 @@ def enumerate_cases(tier, seed):
                 for suffix in (".v2", "", ".top"):
                     cases.append({"program": program, "input": inp, "fault": None, "prior": prior, "rng": seed,
                                   "suffix": suffix})
-    return cases
+    # every case whose listing index is a multiple of 3, and every fault-free case a second time, runs with the
+    # directory for temporary files on another file system than the output
+    extra = []
+    for i, c in enumerate(cases):
+        if i % 3 == 0:
+            c["other_dev"] = True
+        elif c["fault"] is None:
+            extra.append(dict(c, other_dev=True))
+    return cases + extra
 
 
 # ----------------------------------------------------------------------------
@@ -277,6 +286,22 @@ def install_fault(program, fault, state):
 
 
 def check(spec, ctx):
+    # in part of the cases the directory for temporary files lies on another file system than the output
+    # (a tmpfs next to a disk): moving a finished temporary file into place is then a copy, not a rename
+    shm = "/dev/shm"
+    other = None
+    if (spec.get("other_dev") and os.path.isdir(shm) and os.access(shm, os.W_OK)
+            and os.stat(shm).st_dev != os.stat(ctx.dir).st_dev):
+        other = tempfile.mkdtemp(prefix="polyply-verif-", dir=shm)
+        ctx.label("temp_dir_on_other_device")
+    try:
+        return _check(spec, ctx, other)
+    finally:
+        if other:
+            shutil.rmtree(other, ignore_errors=True)
+
+
+def _check(spec, ctx, other_tmp):
     program, fault, prior = spec["program"], spec["fault"], spec["prior"]
     natural = bool(fault) and fault["stage"] == "natural"
     outdir = ctx.dir / "out"
@@ -284,6 +309,8 @@ def check(spec, ctx):
     tmpdir = ctx.dir / "tmp"
     for d in (outdir, indir, tmpdir):
         d.mkdir()
+    if other_tmp:
+        tmpdir = Path(other_tmp)
     tempfile.tempdir = str(tmpdir)
     suffix = {"gen_params": ".itp", "gen_coords": ".gro", "gen_seq": ".json"}[program]
     if spec.get("suffix") is not None:
